@@ -440,6 +440,39 @@ def part_run(ctx: Ctx) -> Result:
         res.violate(Violation(ID, "run", "main-recorded", case, f"`run -m`: functions of the module run as __main__ were recorded: {sorted(rows3)[:6]}"))
     if want - rows3:
         res.violate(Violation(ID, "run", "admitted-not-recorded", case, f"`run -m`: admitted calls not recorded: {sorted(want - rows3)}"))
+    # ONE file under two identities in two tracing sessions of one process: run as the script (its functions are __main__,
+    # nothing of it is recorded), then imported as a module by another script (its functions are ordinary and recorded) -
+    # and the other way round. Nothing a session learnt about a code object may decide the next session's verdict.
+    for first in ("script", "module"):
+        both = f"c17both_{first}_{ctx.seed}"
+        (d / f"{both}.py").write_text(PROGRAM.format(mod=modname))
+        drv = d / f"c17drv_{first}.py"
+        drv.write_text(f"import {both} as B\nB.main_helper(7)\nB.ScriptClass(1).method(2)\nB.ScriptClass.smethod(3)\n")
+        importlib.invalidate_caches()
+        seen_rows = []
+        for what in ((first, "module" if first == "script" else "script")):
+            dbx = str(d / f"both_{first}_{what}.sqlite3")
+            mcfg.reset(db=dbx)
+            clear_cache()
+            res.states += 1
+            res.evaluations += 1
+            sys.modules.pop(both, None) if what == "script" else None
+            try:
+                cli.main(["-c", "mcfg:fresh()", "run", str(d / f"{both}.py") if what == "script" else str(drv)], io.StringIO(), io.StringIO())
+            except BaseException as e:  # noqa: BLE001
+                res.violate(Violation(ID, "run", "two-identities:raised", dict(case, first=first), f"run raised {e!r}"))
+                continue
+            stx = mcfg.CONFIG.trace_store()
+            rowsx = {(t.module, t.qualname) for m in stx.list_modules() for t in stx.filter(m)}
+            res.transitions += len(rowsx) + 1
+            mine = {r for r in rowsx if r[0] == both or r[0].startswith("__main__")}
+            want_mine = set() if what == "script" else {(both, q) for q in ("main_helper", "ScriptClass.method", "ScriptClass.smethod", "ScriptClass.__init__", "main_entry", "outer_in_script", "ScriptClass.cmethod")}
+            if what == "script" and mine:
+                res.violate(Violation(ID, "run", "main-recorded", dict(case, first=first), f"file run as the script ({'after' if first == 'module' else 'before'} being imported as a module in another session): its functions were recorded: {sorted(mine)[:6]}"))
+            if what == "module" and not {(both, "main_helper"), (both, "ScriptClass.method"), (both, "ScriptClass.smethod")} <= mine:
+                res.violate(Violation(ID, "run", "admitted-not-recorded:same-file-was-__main__-in-an-earlier-session", dict(case, first=first), f"file imported as module {both} ({'after' if first == 'script' else 'before'} having been run as the script in another session): recorded rows of it: {sorted(mine)}"))
+        sys.modules.pop(both, None)
+    res.oblige("R:one-file-two-identities", True)
     for ending, tail in (("sys-exit", "import sys\nsys.exit(0)\n"), ("exception", "raise KeyError('script failed')\n")):
         sp = d / f"script_{ending}.py"
         sp.write_text(PROGRAM.format(mod=modname) + "\n" + tail)
@@ -624,7 +657,7 @@ def run(ctx: Ctx) -> Result:
     res.merge(part_paths(ctx))
     res.merge(part_misc(ctx))
     res.merge(part_run(ctx))
-    for o in ("P:symlinked-spelling-of-library-path", "A:allow-list-admits-library-package", "A:allow-list-admits-user-module", "A:allow-list-rejects", "C:equal-code-different-verdicts", "F:twin-code-objects-equal", "A:allow-list-name-equal-to-prefix-component", "U:mod=True", "U:link_to_lib=False", "U:link_to_user=True", "U:near-root-path-admitted", "U:near-root-path-rejected", "R:modules-named-like-parts-of-__main__"):
+    for o in ("P:symlinked-spelling-of-library-path", "A:allow-list-admits-library-package", "A:allow-list-admits-user-module", "A:allow-list-rejects", "C:equal-code-different-verdicts", "F:twin-code-objects-equal", "A:allow-list-name-equal-to-prefix-component", "U:mod=True", "U:link_to_lib=False", "U:link_to_user=True", "U:near-root-path-admitted", "U:near-root-path-rejected", "R:modules-named-like-parts-of-__main__", "R:one-file-two-identities"):
         res.obligations.setdefault(o, False)
     res.nontrivial_n = res.states
     return res
